@@ -275,4 +275,68 @@ theorem non_npz_rejected (fs : FS) (m : Mineral) (file : Str) (pf : Option Str)
     load fs m file pf = .error .valueError := by
   simp [save, fromFile, load, readData, h, bind, Except.bind, throw, throwThe, MonadExceptOf.throw]
 
+theorem saveAll_append (fs : FS) (file : Str) (a b : List (Option Str × Mineral)) :
+    saveAll fs file (a ++ b) =
+      match saveAll fs file a with
+      | (fs', .ok ()) => saveAll fs' file b
+      | (fs', .error e) => (fs', .error e) := by
+  induction a generalizing fs with
+  | nil => simp [saveAll]
+  | cons x rest ih =>
+    obtain ⟨p, m⟩ := x
+    simp only [cons_append, saveAll]
+    cases hs : save fs m file p with
+    | mk fs1 r =>
+      cases r with
+      | error e => simp
+      | ok u => cases u; simp [ih]
+
+/-- any sequence of saves of valid minerals into a ".npz" file succeeds -/
+theorem saveAll_valid_ok (fs : FS) (file : Str) (hfile : isNpzName file = true)
+    (ops : List (Option Str × Mineral)) (hv : ∀ e ∈ ops, Valid e.2) :
+    ∃ fs', saveAll fs file ops = (fs', .ok ()) := by
+  induction ops generalizing fs with
+  | nil => exact ⟨fs, rfl⟩
+  | cons x rest ih =>
+    obtain ⟨p, m⟩ := x
+    have hm : Valid m := hv (p, m) (by simp)
+    have h2 := valid_saved fs m hm file hfile p
+    cases hs : save fs m file p with
+    | mk fs1 r =>
+      rw [hs] at h2
+      simp only at h2
+      subst h2
+      obtain ⟨fs', h'⟩ := ih fs1 (fun e he => hv e (by simp [he]))
+      exact ⟨fs', by simp [saveAll, hs, h']⟩
+
+/-- **any history**: after an arbitrary sequence of saves into one file — whole-file saves and
+saves under postfixes in any interleaving — a mineral saved under postfix `p` is recovered
+intact by both loaders provided that afterwards there was neither a whole-file save (which
+replaces the archive) nor another save under `p`. -/
+theorem save_any_sequence_then_load (file : Str) (hfile : isNpzName file = true) (fs : FS)
+    (before : List (Option Str × Mineral)) (after : List (Str × Mineral)) (p : Str) (m target : Mineral)
+    (hvb : ∀ e ∈ before, Valid e.2) (hm : Valid m) (hva : ∀ e ∈ after, Valid e.2)
+    (hp : NoNul p) (hnn : ∀ e ∈ after, NoNul e.1) (hafter : ∀ e ∈ after, e.1 ≠ p) :
+    ∃ fs', saveAll fs file (before ++ (some p, m) :: after.map (fun e => (some e.1, e.2))) = (fs', .ok ()) ∧
+      fromFile fs' file (some p) = .ok m ∧ load fs' target file (some p) = .ok m := by
+  obtain ⟨fs1, h1⟩ := saveAll_valid_ok fs file hfile before hvb
+  have hv' : ∀ e ∈ ([] : List (Str × Mineral)) ++ (p, m) :: after, Valid e.2 := by
+    intro e he
+    rcases mem_cons.mp (by simpa using he) with rfl | he
+    · exact hm
+    · exact hva e he
+  have hnn' : ∀ e ∈ ([] : List (Str × Mineral)) ++ (p, m) :: after, NoNul e.1 := by
+    intro e he
+    rcases mem_cons.mp (by simpa using he) with rfl | he
+    · exact hp
+    · exact hnn e he
+  obtain ⟨fs', h2, h3⟩ := save_all_then_load file hfile fs1 [] after p m hv' hnn' hafter
+  obtain ⟨fs'', h2', h4⟩ := load_restores file hfile fs1 [] after p m target hv' hnn' hafter
+  have : fs'' = fs' := by
+    rw [h2] at h2'; exact (Prod.mk.inj h2').1.symm
+  subst this
+  refine ⟨fs'', ?_, h3, h4⟩
+  rw [saveAll_append, h1]
+  simpa using h2
+
 end ModelD.Npz
